@@ -300,6 +300,40 @@ def r17_13(run, model):
     run.floor("receiver-type resolvers examined", n, 3)
 
 
+def r17_14(run, model):
+    run.rule("R17.14", "every bound of a type parameter is known where its methods are resolved: the functions that fill the table of "
+                       "type-parameter bounds (free functions and impl-block methods alike) record *all* written bounds - the push of a "
+                       "resolved trait sits in a loop over the bounds, not behind `.first()` - otherwise a method declared by two bounds is "
+                       "not reported as ambiguous but resolved to the first-written one")
+    n = 0
+    for f in model.fns(TOPLEVEL):
+        if f.body is None or not any(True for _ in S.calls(f.body, "resolve_trait_name")):
+            continue
+        par = S.Parents(f.body)
+        for c in S.walk(f.body):
+            if c["k"] != "MethodCall" or c["method"] != "push" or not any(True for _ in S.calls(par.parent(c) or c, "TastIdent")) \
+                    and "TastIdent" not in S.norm_ws(run.facts.text(TOPLEVEL, c["sp"])):
+                continue
+            if "TastIdent" not in S.norm_ws(run.facts.text(TOPLEVEL, c["sp"])):
+                continue
+            encl = [a for a in par.ancestors(c) if a["k"] in ("For", "If")]
+            # nearest construct that selects which bounds are visited
+            sel = None
+            for a in encl:
+                t = S.norm_ws(run.facts.text(TOPLEVEL, (a.get("iter") or a.get("cond"))["sp"]))
+                if "traits" in t or "bounds" in t:
+                    sel = (a, t)
+                    break
+            if sel is None:
+                continue
+            n += 1
+            ok = sel[0]["k"] == "For" and not re.search(r"\.(first|last|next|get|take)\(", sel[1])
+            run.ob("R17.14", f"{f.name}|all bounds of a type parameter are recorded", ok, site(TOPLEVEL, sel[0]["sp"]), f"bounds visited by: {sel[1][:70]}",
+                   witness="impl Logger { fn log[T: Pretty + Debug](self, x: T) { x.render() } } with render in both traits: no ambiguity error, the "
+                           "first-written bound wins; swapping the bounds switches the implementation")
+    run.floor("functions recording type-parameter bounds", n, 2)
+
+
 def run(run, model):
     run.try_rule(r17_1, model)
     run.try_rule(r17_2, model)
@@ -310,6 +344,7 @@ def run(run, model):
     run.try_rule(r17_11, model)
     run.try_rule(r17_12, model)
     run.try_rule(r17_13, model)
+    run.try_rule(r17_14, model)
     from rules import c01
     from lib import passes as P
     run.rule("R17.7", "every coercion to dyn gets its vtable: the collector that decides which vtable constructors and wrappers are generated "
